@@ -5,6 +5,7 @@ import (
 	"bytes"
 	"encoding/json"
 	"fmt"
+	"hash/fnv"
 	"os"
 	"os/exec"
 	"path/filepath"
@@ -397,14 +398,21 @@ func RunMain(id, tier string) int {
 }
 
 func sanitize(s string) string {
+	h := fnv.New32a()
+	h.Write([]byte(s))
+	defer func() {}()
+	return sanitize0(s) + fmt.Sprintf("-%08x", h.Sum32())
+}
+
+func sanitize0(s string) string {
 	b := []byte(s)
 	for i, c := range b {
 		if !(c >= 'a' && c <= 'z' || c >= 'A' && c <= 'Z' || c >= '0' && c <= '9' || c == '-' || c == '_') {
 			b[i] = '_'
 		}
 	}
-	if len(b) > 80 {
-		b = b[:80]
+	if len(b) > 60 {
+		b = b[:60]
 	}
 	return string(b)
 }
